@@ -136,6 +136,13 @@ GeoBad(src, obs, prefix) ==
          (IF "Groups" \in gb THEN PD(prefix \o "Groups", {"faces"}) ELSE {})
          \cup (IF "Corners" \in gb THEN P1(prefix \o "Corners") ELSE {})
 
+\* Load is judged against what the written files say: per triangle, only where the pair of files
+\* resolves to the source material (otherwise X03.SaveResolves already reports that triangle)
+LoadedWhereResolved(cs, tris, os, lib) ==
+    IF Len(cs) # Len(os) THEN {"Ranges"}
+    ELSE UNION {IF Len(tris) = Len(cs) /\ ResolveBad(<<cs[t]>>, <<tris[t]>>, lib) # {} THEN {}
+                ELSE LoadedBad(<<cs[t]>>, <<os[t]>>) : t \in DOMAIN cs}
+
 SvJudge(ln) ==
     LET names == [i \in DOMAIN ln.src |-> ln.src[i].name]
         exs == {"X03.SaveOk"} IN
@@ -155,24 +162,28 @@ SvJudge(ln) ==
         obj == IF ln.objhit # 1 THEN {}
                ELSE IF ~den.ok THEN PD("SaveObjValid", {den.why})
                ELSE GeoBad(ln.src, og, "Save")
-                    \cup (IF og = <<>> THEN {}
+                    \cup (IF og = <<>> \/ mval # {} \/ libs # {} THEN {}
                           ELSE PD("SaveResolves", UNION {ResolveBad(TriSrc(ln.src[i]), og[i].mats, lib) : i \in DOMAIN ln.src}))
+        \* the pair of files is one a reader must accept
+        pair == ln.objhit = 1 /\ den.ok /\ files = {} /\ libs = {} /\ mval = {}
         lg == Align(names, Obj!ReadGroups([i \in DOMAIN ln.ld |-> AsObj(ln.ld[i])]))
         lm == Align(names, ln.ld)
-        load == IF ln.objhit # 1 THEN {}
+        load == IF ~pair THEN {}
                 ELSE IF ln.lerr # "" THEN PD("LoadOk", {ln.lerr})
                 ELSE GeoBad(ln.src, lg, "Load")
-                     \cup (IF lm = <<>> THEN {}
-                           ELSE PD("LoadMaterials", UNION {LoadedBad(TriSrc(ln.src[i]), TriObs(lm[i])) : i \in DOMAIN ln.src}))
+                     \cup (IF lm = <<>> \/ og = <<>> THEN {}
+                           ELSE PD("LoadMaterials", UNION {LoadedWhereResolved(TriSrc(ln.src[i]), og[i].mats, TriObs(lm[i]), lib)
+                                                           : i \in DOMAIN ln.src}))
         ex1 == exs \cup {"X03.SaveFiles"}
                \cup (IF ln.dirs # <<>> THEN {"X03.SaveDirMode"} ELSE {})
                \cup (IF HasRanges(ln.src) THEN {"X03.SaveMtllib"} ELSE {"ant.NoMaterials"})
-               \cup (IF ln.objhit = 1 THEN {"X03.SaveObjValid", "X03.LoadOk"} ELSE {})
+               \cup (IF ln.objhit = 1 THEN {"X03.SaveObjValid"} ELSE {})
                \cup (IF ln.objhit = 1 /\ den.ok THEN {"X03.SaveGroups", "X03.SaveCorners"} ELSE {})
                \cup (IF ln.mtls # <<>> THEN {"X03.SaveMtlValid"} ELSE {})
-               \cup (IF ln.objhit = 1 /\ den.ok /\ og # <<>> /\ HasReal(ln.src) THEN {"X03.SaveResolves"} ELSE {})
-               \cup (IF ln.objhit = 1 /\ ln.lerr = "" THEN {"X03.LoadGroups", "X03.LoadCorners"} ELSE {})
-               \cup (IF ln.objhit = 1 /\ ln.lerr = "" /\ lm # <<>> /\ HasReal(ln.src) THEN {"X03.LoadMaterials"} ELSE {})
+               \cup (IF ln.objhit = 1 /\ den.ok /\ og # <<>> /\ mval = {} /\ libs = {} /\ HasReal(ln.src) THEN {"X03.SaveResolves"} ELSE {})
+               \cup (IF pair THEN {"X03.LoadOk"} ELSE {})
+               \cup (IF pair /\ ln.lerr = "" THEN {"X03.LoadGroups", "X03.LoadCorners"} ELSE {})
+               \cup (IF pair /\ ln.lerr = "" /\ lm # <<>> /\ og # <<>> /\ HasReal(ln.src) THEN {"X03.LoadMaterials"} ELSE {})
                \cup (IF ln.op = "SaveAll" THEN {"ant.SaveAll"} ELSE {"ant.Save"})
                \cup (IF ln.path.cwd THEN {"ant.RelativePath"} ELSE {})
                \cup (IF ln.path.pre # <<>> THEN {"ant.ExistingDir"} ELSE {})
